@@ -1000,7 +1000,7 @@ impl ProtocolState {
         self.ping_timeout_timepoint = None;
         self.operation_ack_timeouts.clear();
 
-        self.apply_connection_closed_to_current_operation()?;
+        ignore_user_initiated_disconnect(self.apply_connection_closed_to_current_operation())?;
         self.apply_slow_start_initialization();
         self.update_interrupted_retries();
 
@@ -1083,7 +1083,7 @@ impl ProtocolState {
 
         self.user_operation_queue.append(&mut retained_user);
 
-        result
+        ignore_user_initiated_disconnect(result)
     }
 
     fn handle_network_event_write_completion(&mut self, _: &NetworkEventContext) -> GneissResult<()> {
@@ -2210,6 +2210,17 @@ impl ProtocolState {
     // Test accessors
     pub(crate) fn get_negotiated_settings(&self) -> &Option<NegotiatedSettings> {
         &self.current_settings
+    }
+}
+
+// Failing a user-requested DISCONNECT that never got written reports the "user initiated disconnect"
+// pseudo-error, which normally tells the caller to shut the connection down.  When the connection
+// is already closed there is nothing left to shut down, and propagating it would be treated as a
+// fatal failure of the connection-closed event itself.
+fn ignore_user_initiated_disconnect(result: GneissResult<()>) -> GneissResult<()> {
+    match result {
+        Err(GneissError::UserInitiatedDisconnect(_)) => { Ok(()) }
+        _ => { result }
     }
 }
 
